@@ -867,4 +867,48 @@ ldb_atomic__fetch_add(long *object, long operand) {
 
 #endif /* !LDB_PTHREAD_ATOMICS */
 
+#ifdef CHJJ_LCDB_VERIF
+/*
+ * Verification hook (inert unless CHJJ_LCDB_VERIF is defined; never
+ * defined by the normal build). Every atomic access reports its object,
+ * kind (0 load, 1 store, 2 fetch-add, 3 fetch-sub), memory order and
+ * value to an extern monitor so that a symbolic-execution harness can
+ * check which order each publication/consumption site uses and where
+ * it sits relative to plain stores. The access itself becomes a plain
+ * access: only for single-threaded symbolic execution.
+ */
+void
+ldb_verif_atomic_event(const volatile void *object,
+                       int kind,
+                       int order,
+                       long value);
+
+#undef ldb_atomic_store
+#undef ldb_atomic_store_ptr
+#undef ldb_atomic_load
+#undef ldb_atomic_load_ptr
+#undef ldb_atomic_fetch_add
+#undef ldb_atomic_fetch_sub
+
+#define ldb_atomic_store(object, desired, order) do {                  \
+  ldb_verif_atomic_event((object), 1, (order), (long)(desired));       \
+  *(object) = (desired);                                               \
+} while (0)
+
+#define ldb_atomic_store_ptr ldb_atomic_store
+
+#define ldb_atomic_load(object, order) \
+  (ldb_verif_atomic_event((object), 0, (order), 0), *(object))
+
+#define ldb_atomic_load_ptr ldb_atomic_load
+
+#define ldb_atomic_fetch_add(object, operand, order)                   \
+  (ldb_verif_atomic_event((object), 2, (order), (long)(operand)),      \
+   (*(object) += (operand)) - (operand))
+
+#define ldb_atomic_fetch_sub(object, operand, order)                   \
+  (ldb_verif_atomic_event((object), 3, (order), (long)(operand)),      \
+   (*(object) -= (operand)) + (operand))
+#endif /* CHJJ_LCDB_VERIF */
+
 #endif /* LDB_ATOMICS_H */
